@@ -367,6 +367,7 @@ func (e *Engine) step(st *State, fr *Frame, ins ssa.Instruction) {
 		for _, r := range x.Results {
 			rs = append(rs, e.val(st, fr, r))
 		}
+		e.returnHook(st, fr, rs, x.Pos(), x)
 		e.doReturn(st, fr, rs, x.Pos())
 	case *ssa.Panic:
 		name := e.siteName(st, fr, "panic", x.Pos(), ins)
@@ -810,6 +811,10 @@ func (e *Engine) stringToBytes(st *State, v Val, to types.Type) Val {
 	arr := st.freshConst("s2barr", fmt.Sprintf("(Array Int %s)", sortOf(et)))
 	st.assume(fmt.Sprintf("(forall ((i Int)) (! (=> (and (<= 0 i) (< i %s)) (= (select %s i) (select %s i))) :pattern ((select %s i))))",
 		ln, arr, strArr(v.S), arr))
+	// the string of the new bytes is the original string (no extensionality needed later)
+	cfn := "content!" + tkey(et)
+	reg.declareFun(cfn, []string{fmt.Sprintf("(Array Int %s)", sortOf(et)), "Int", "Int"}, "Str")
+	st.assume(eq(fmt.Sprintf("(%s %s 0 %s)", cfn, arr, ln), v.S))
 	st.setHeap(hn, hs, store(st.heap(hn, hs), r, arr))
 	cp := st.freshConst("s2bcap", "Int")
 	st.assume(fmt.Sprintf("(and (>= %s %s) (<= %s 1099511627776))", cp, ln, cp))
